@@ -10,6 +10,9 @@ The oracle below is written from the property text and uses only the generator's
 The registered algorithm of a client is written into the client database for the static clients; a third client
 registers through the REAL registration endpoint (gen_registered): there the ground truth is what the client asked for
 and what the provider advertises, the model's `register` step yields the provider the trace is evaluated on.
+Registration HISTORIES (gen_histories): the same id is registered again with other key material; the ground truth is the
+material of the registration in force (the latest accepted one), the model (Model/JarReg.v) computes the key jar entry
+and the record of the id from the history and the trace is evaluated on the provider the model says there is.
 """
 import copy
 import json
@@ -45,6 +48,15 @@ RULE = ("a case is a trace of operations on one real provider: authorization par
         "compared; then objects signed with the algorithm asked for, with other advertised algorithms (one per key family) under "
         "keys the client registered, HS256 with its client secret, unsigned, under a foreign key, x 3 transports against that "
         "client; refused registrations followed by objects in the client's name; static clients next to a registered one; random. "
+        "(8) registration HISTORIES: the id of the third client is registered 1..3 times (the first through parse_request + "
+        "process_request, the later ones Registration.process_request(..., new_id=False) - the library's registration update / re-use "
+        "of an id), each registration bringing {a jwks, a jwks_uri document served by the stub httpc, an empty jwks, no key material "
+        "at all} with keys of generation {0,1,2} (all / fewer / mixed generations / the first generation again) and being issued a new "
+        "client_secret, accepted or refused (a refused one in first / middle position), asking for request_object_signing_alg by "
+        "position patterns; after every prefix of every history: RS256 / ES256 objects under the keys of EVERY generation, HS256 "
+        "objects under the secret of EVERY registration (also refused / never made ones), unsigned, x 3 transports; the key jar entry "
+        "of the id is read after every registration; same keys with a changing registered algorithm; static clients next to it; random "
+        "histories x random objects x provider key sets. "
         "Non-trivial = at least one object/pushed request "
         "is accepted or a refusal is caused by exactly one fault, or a registration was accepted (and what it stored was judged).")
 ASSUMPTIONS = [
@@ -66,6 +78,13 @@ ASSUMPTIONS = [
     "dynamic registration (Model/Jar.v register): only request_object_signing_alg is transcribed; whether the rest of a registration "
     "request is acceptable is C19's subject and enters as the flag rq_ok; the client_id the provider assigns is new (fixed by a "
     "client_id_generator in the harness); the keys of the JWKS are in the key jar afterwards (observed, not modelled)",
+    "registration histories (Model/JarReg.v reregister / after / latest): a registration under an id replaces the id's record and "
+    "key jar entry by what THIS request brings plus the secret issued for it (transcribed from Registration.client_registration_setup; "
+    "a refused one changes nothing); the key numbers a registration brings are the generator's ground truth, the key jar entry the "
+    "model computes is compared with the live key jar after every registration; every registration is issued a secret "
+    "(set_secret=True, the library's default); a jwks_uri document is fetched through the stub httpc (the KeyBundle's httpc is "
+    "set to it after the registration) and does not change between registrations other than by a registration; OKP keys are "
+    "outside the model",
     "observation (not a violation; decided with the property's owner): a requested request_object_signing_alg the provider does NOT "
     "advertise is dropped by the registration negotiation (filter_client_request / match_claim), the registration is accepted with 201 "
     "and the response / client database / read endpoint all lack the parameter, so the provider's supported set is what is permitted "
@@ -189,7 +208,7 @@ def coq_wobj(o):
     cl = coq_params(canon_claims(o["claims"]))
     if sg is None:
         return "(WObj %s %s None)" % (coq_str(o["alg"]), cl)
-    k = coq_nat(S.keynum(sg["owner"], S.slot_of(sg["alg"]) if sg["owner"] == S.DYN else S.ALG_KTY[sg["alg"]]))
+    k = coq_nat(S.keynum(sg["owner"], S.slot_of(sg["alg"]) if S.gen_of(sg["owner"])[0] == S.DYN else S.ALG_KTY[sg["alg"]]))
     if sg["alg"] == o["alg"] and canon_claims(sg["claims"]) == canon_claims(o["claims"]) and list(sg["claims"]) == list(o["claims"]):
         return "(wgen %s %s %s)" % (coq_str(o["alg"]), cl, k)
     return "(wsig %s %s %s %s %s)" % (coq_str(o["alg"]), cl, k, coq_str(sg["alg"]), coq_params(canon_claims(sg["claims"])))
@@ -353,6 +372,10 @@ class Runner:
         self.srv = srv
         self.cases = {}       # static literal -> list of (term, record)
         self.rcases = {}      # the same for registration + request-object traces (case type rcase)
+        self.hcases = {}      # the same for registration HISTORIES + request-object traces (case type hcase, Model/JarReg.v)
+        self.dyn_material = None      # ground truth: the (owner generation, slot) pairs of the registration in force for client_d
+        self.dyn_ever = set()         # ... and everything any accepted registration under the id ever brought
+        self.hist_stats = {"stored": 0, "again": 0, "refused": 0}
         self.known = ("client_1", "client_2")      # the clients the provider knows, by generator ground truth
         self.reg_stats = {"stored": 0, "refused": 0, "exact": 0, "dropped": 0}
         self.accepted_genuine = 0
@@ -370,13 +393,15 @@ class Runner:
         return self.worlds[key]
 
     # ---- run one case on the real code
-    def run_case(self, kind, wkey, conf, docs, ops, t0=1_700_000_000, note="", register=None):
+    def run_case(self, kind, wkey, conf, docs, ops, t0=1_700_000_000, note="", register=None, history=None):
         """conf: dict(reg=..., request_uris=..., prov_algs=..., ru_supported=...); docs: url -> symbolic object;
         ops: list of ("authz", outer, obj) | ("push", pusher, body, obj) | ("tick", dt) | ("redeem", who, which, outer_extra);
         register (worlds with a registration endpoint: wkey has a fifth component, the provider's own key set):
         {"alg": requested request_object_signing_alg | None, "slots": which of its public keys the JWKS carries,
          "ok": the rest of the request is acceptable, "over": other registration parameters} - client_d registers
-        through the real registration endpoint before the operations run"""
+        through the real registration endpoint before the operations run;
+        history: a list of registrations under the id client_d (srv_c16.RegWorld.register_step: the first one creates
+        the id, the later ones are Registration.process_request(..., new_id=False)), all before the operations run"""
         S, ctx = self.S, self.ctx
         w = self.world(*wkey)
         w.configure(**conf)
@@ -389,12 +414,27 @@ class Runner:
         self.pending = []       # verdicts on the registration: reported once the trace is recorded in rec
         self.known = ("client_1", "client_2")
         in_force = None
+        self.dyn_material, self.dyn_ever = None, set()
+        hobs = []
         if register is not None:
             oc0 = w.observed_config()          # the provider before the registration: the model's input
             oc0["prov_default"] = w.base_algs
             robs = w.register(register.get("alg"), register.get("slots") or [], register.get("over"))
             rec["register"], rec["registration"] = register, robs
             in_force = self.judge_registration(rec, w, register, robs, oc0["prov_algs"])
+            if robs["k"] == "stored":
+                self.dyn_material = {(S.DYN, sl) for sl in (register.get("slots") or []) if "jwks" not in (register.get("over") or {})}
+                self.dyn_material.add((S.DYN, "oct"))
+                self.dyn_ever = set(self.dyn_material)
+        if history is not None:
+            oc0 = w.observed_config()          # the provider before any registration under the id
+            oc0["prov_default"] = w.base_algs
+            rec["history"] = history
+            for i, spec in enumerate(history):
+                ho = w.register_step(i, spec)
+                hobs.append(ho)
+                in_force = self.judge_history_step(w, i, spec, ho, oc0["prov_algs"], in_force)
+            rec["registrations"] = hobs
         for u, o in docs.items():
             w.docs[u] = w.wire(o)
         oc = w.observed_config()
@@ -406,6 +446,11 @@ class Runner:
             # never what the client database happens to hold
             reg.pop(S.DYN, None)
             if robs["k"] == "stored":
+                reg[S.DYN] = in_force
+        if history is not None:
+            # ... and over a history: what the LATEST accepted registration asked for
+            reg.pop(S.DYN, None)
+            if self.dyn_material is not None:
                 reg[S.DYN] = in_force
         prov = oc["prov_algs"]
         ledger = {}        # urn -> ground truth of the push that was issued this urn
@@ -537,6 +582,8 @@ class Runner:
             ctx.violation(sig, what, rec)
         if register is not None and robs["k"] == "stored":
             nontrivial = True
+        if history is not None and self.dyn_material is not None:
+            nontrivial = True
         ctx.case_seen(rec, nontrivial)
         if not modelled(wkey[0], real_ops, docs):
             ctx.unmodelled += 1
@@ -545,6 +592,25 @@ class Runner:
         jar, base, dprov = coq_static(oc)
         cdocs = coq_list(["(%s, %s)" % (coq_str(u), coq_wobj(o)) for u, o in docs.items()], "(pystr * wobj)")
         ctrace = coq_list(["(%s, %s)" % (coq_op(o), coq_obs(b)) for o, b in trace], "(op * obs)")
+        if history is not None:
+            # the key jar BEFORE any registration under the id (the model files the material itself), the requests, the
+            # material each one brings, what was observed of each (response / client database / read endpoint / key jar)
+            jar0 = coq_static(oc0)[0]
+            steps = []
+            for i, (spec, ho) in enumerate(zip(history, hobs)):
+                rq = "(%s, %s, %s, %s)" % (coq_str(S.DYN), coq_opt(spec.get("alg"), coq_str, "pystr"),
+                                           coq_bool(not spec.get("refuse")), "None")
+                ks = coq_list(["(%s, %s)" % (KTY[S.DYN_KEYDEFS[sl]["type"]], coq_nat(S.keynum(S.gen_owner(g), sl)))
+                               for g, sl in (spec.get("keys") or []) if spec.get("via") and S.DYN_KEYDEFS[sl]["type"] in KTY], "(kty * nat)")
+                if ho["k"] == "stored":
+                    ro = "(BStored %s %s %s)" % (coq_reg(ho["echo"]), coq_reg(ho["stored"]), coq_reg(ho["read"]))
+                else:
+                    ro = "BRefused"
+                je = coq_opt(ho["jar"], lambda l: coq_list(["(%s, %s)" % (KTY[t], coq_nat(n)) for t, n in l], "(kty * nat)"), "(list (kty * nat))")
+                steps.append("(%s, %s, %s, %s, %s)" % (rq, ks, coq_nat(S.keynum(S.gen_owner(i), "oct")), ro, je))
+            term = "(%s, %s, %s, %s, %s)" % (coq_cfg_var(oc0), coq_list(steps, "hstep"), cdocs, coq_z(t0), ctrace)
+            self.hcases.setdefault((jar0, base, dprov), []).append((term, rec))
+            return rec
         if register is None:
             term = "(%s, %s, %s, %s)" % (coq_cfg_var(oc), cdocs, coq_z(t0), ctrace)
             self.cases.setdefault((jar, base, dprov), []).append((term, rec))
@@ -598,6 +664,65 @@ class Runner:
                                                              " (%s)" % robs["read_error"] if robs["read_error"] else "")))
         return in_force
 
+    # ---- the oracle for one registration of a history under the id client_d
+    def judge_history_step(self, w, i, spec, ho, advertised, in_force):
+        """Ground truth: what the generator put into the i-th registration request (key generations / slots, by jwks, by
+        jwks_uri or not at all; the algorithm asked for) and whether the request is acceptable.  The registration in
+        force is the latest accepted one: ITS keys and the secret issued for IT are the client's registered keys, its
+        request_object_signing_alg is the registered algorithm.  Returns the algorithm in force afterwards."""
+        ctx, S = self.ctx, self.S
+        jar = None if ho["jar"] is None else sorted((t, n) for t, n in ho["jar"])
+        if spec.get("refuse"):
+            if ho["k"] != "refused":
+                ctx.broken.append("history: the registration meant to be refused (%r) was accepted" % (spec,))
+                return in_force
+            self.hist_stats["refused"] += 1
+            before = None if ho["jar_before"] is None else sorted((t, n) for t, n in ho["jar_before"])
+            if jar != before or not ho["record_unchanged"] or ho["new"]:
+                self.pending.append(("reg-refused-left-behind", "registration #%d under %s was refused (%s) but the key jar entry went from %r "
+                                     "to %r / the record changed: %s / new ids %r" % (i, S.DYN, ho["why"], before, jar, not ho["record_unchanged"], ho["new"])))
+            return in_force
+        if ho["k"] != "stored":
+            ctx.broken.append("history: registration #%d %r was refused: %s" % (i, spec, ho["why"]))
+            return in_force
+        self.hist_stats["stored"] += 1
+        if i > 0 and self.dyn_material is not None:
+            self.hist_stats["again"] += 1
+        if ho["cid"] != S.DYN:
+            ctx.broken.append("harness: registration #%d created %r (expected %s)" % (i, ho["cid"], S.DYN))
+        brought = {(S.gen_owner(g), sl) for g, sl in (spec.get("keys") or [])} if spec.get("via") else set()
+        # the secret in force: every generation whose issued secret IS the client's current secret (one, unless the
+        # provider hands the same secret out again)
+        cur = w.ctx.cdb[S.DYN].get("client_secret")
+        brought |= {(S.gen_owner(j), "oct") for j in range(min(i + 1, S.GENERATIONS))
+                    if cur is not None and w.keys[S.gen_owner(j)]["oct"].key in (cur, str(cur).encode())}
+        self.dyn_material = brought
+        self.dyn_ever |= brought
+        # the key jar entry of the id holds the registered keys: those of THIS registration, nothing of a replaced one
+        want = sorted((S.DYN_KEYDEFS[sl]["type"] if sl != "oct" else "oct", S.keynum(o, sl)) for o, sl in brought
+                      if sl == "oct" or S.DYN_KEYDEFS[sl]["type"] in S.KTYS)
+        if jar != want:
+            extra = [k for k in (jar or []) if k not in want]
+            old = [k for k in extra if k[1] in {S.keynum(o, sl) for o, sl in self.dyn_ever}]
+            self.pending.append(("reg-replaced-keys-kept" if old else "reg-keys-differ",
+                                 "after registration #%d under %s (%s, keys %r) the key jar holds %r for the id, the registration brought "
+                                 "%r%s" % (i, S.DYN, spec.get("via") or "no key material", spec.get("keys"), jar, want,
+                                           ": %r belong to a registration that was replaced" % old if old else "")))
+        asked = spec.get("alg")
+        if asked is not None and asked in advertised:
+            now = asked
+            if ho["stored"] != asked:
+                self.pending.append(("reg-alg-not-stored", "registration #%d under %s asked request_object_signing_alg=%s, which the provider "
+                                     "advertises, it was accepted, but the client database holds %r" % (i, S.DYN, asked, ho["stored"])))
+        else:
+            now = ho["echo"]
+        if not (ho["echo"] == ho["stored"] == ho["read"]) or ho["read_error"]:
+            self.pending.append(("reg-echo-differs", "registration #%d: request_object_signing_alg asked %r: response says %r, client database "
+                                 "holds %r, registration-read returns %r%s" % (i, asked, ho["echo"], ho["stored"], ho["read"],
+                                                                              " (%s)" % ho["read_error"] if ho["read_error"] else "")))
+        self.known = ("client_1", "client_2", S.DYN)
+        return now
+
     # ---- the oracle for one object that may have taken effect
     def judge_object(self, rec, transport, obj, outer, out, ident, reg, prov, when="", wrapped=None):
         """out: canonical accepted outcome (or stored snapshot); ident: the client the effective request is attributed to;
@@ -645,8 +770,17 @@ class Runner:
                 ctx.violation("op-own-key", "%s: object signed with the provider's own key took effect for %s" % (tag, ident), rec)
             elif sg["owner"] == "mallory":
                 ctx.violation("foreign-key", "%s: object signed with an unregistered key took effect for %s" % (tag, ident), rec)
-            elif sg["owner"] != ident:
+            elif S.gen_of(sg["owner"])[0] != ident:
                 ctx.violation("xclient-foreign-signer", "%s: object signed by %s took effect for %s" % (tag, sg["owner"], ident), rec)
+            elif ident == S.DYN and self.dyn_material is not None and (
+                    sg["owner"], "oct" if S.ALG_KTY[sg["alg"]] == "oct" else S.slot_of(sg["alg"])) not in self.dyn_material:
+                # the client's registered keys are those of the registration in force: the latest accepted one
+                mat = (sg["owner"], "oct" if S.ALG_KTY[sg["alg"]] == "oct" else S.slot_of(sg["alg"]))
+                ctx.violation("superseded-registration-key" if mat in self.dyn_ever else "unregistered-key",
+                              "%s: object signed %s with %s of %s took effect for %s; the registration in force brought %r%s" % (
+                                  tag, alg, "the client_secret" if mat[1] == "oct" else "the %s key" % mat[1], mat[0], ident,
+                                  sorted(self.dyn_material), " (that material belongs to a registration that was replaced)"
+                                  if mat in self.dyn_ever else ""), rec)
         if claims.get("client_id", ident) != ident:
             ctx.violation("xclient-inner-client-id", "%s: object naming client_id=%r took effect for %s" % (tag, claims.get("client_id"), ident), rec)
         if claims.get("iss", ident) != ident:
@@ -663,11 +797,15 @@ class Runner:
         for k, v in claims.items():
             if eff.get(k) != v:
                 ctx.violation("override", "%s: object parameter %s=%r did not override (effective %r)" % (tag, k, v, eff.get(k)), rec)
-        if alg != "none" and sg is not None and sg["alg"] == alg and canon_claims(sg["claims"]) == claims and sg["owner"] == ident:
+        in_force = not (ident == S.DYN and self.dyn_material is not None and sg is not None and alg in S.ALG_KTY and alg != "none" and (
+            sg["owner"], "oct" if S.ALG_KTY[alg] == "oct" else S.slot_of(alg)) not in self.dyn_material)
+        if alg != "none" and sg is not None and sg["alg"] == alg and canon_claims(sg["claims"]) == claims and S.gen_of(sg["owner"])[0] == ident and in_force:
             self.accepted_genuine += 1
             ctx.count("genuine-accepted:" + transport)
             if ident == S.DYN:
                 ctx.count("genuine-accepted-registered:" + transport)
+                if rec.get("history") and len([h for h in rec["history"] if not h.get("refuse")]) > 1:
+                    ctx.count("genuine-accepted-reregistered:" + transport)
             if wrapped:
                 self.accepted_wrapped.add(transport)
                 ctx.count("genuine-accepted-jwe:" + transport)
@@ -1317,6 +1455,138 @@ def gen_random_registered(R, rng, count):
                    note="random: registering %r (advertised %r, own keys %s, jwks %r)" % (asked, prov, opkeys, slots))
 
 
+# ------------------------------------------------------------------ registration HISTORIES: the id client_d is registered
+# again (Registration.process_request(..., new_id=False)) with other key material - a new jwks, a new jwks_uri document,
+# fewer keys, no key material at all (only a new secret is issued) - accepted or refused; then request objects signed with
+# the material of EVERY generation arrive on every transport.  Ground truth: only the material of the registration in
+# force (the latest accepted one) is registered for the client.
+def KG(g, *slots):
+    return [[g, sl] for sl in (slots or ("RSA", "EC"))]
+
+
+def J(keys, **kw):
+    return dict({"via": "jwks", "keys": keys}, **kw)
+
+
+def U(keys, **kw):
+    return dict({"via": "jwks_uri", "keys": keys}, **kw)
+
+
+def N(**kw):
+    return dict({"via": None, "keys": []}, **kw)
+
+
+REG_HISTORIES = [
+    ("no-material", [J(KG(0)), N()]),
+    ("new-jwks", [J(KG(0)), J(KG(1))]),
+    ("new-jwks-uri", [J(KG(0)), U(KG(1))]),
+    ("uri-then-none", [U(KG(0)), N()]),
+    ("uri-republished", [U(KG(0)), U(KG(1))]),
+    ("uri-then-jwks", [U(KG(0)), J(KG(1, "RSA"))]),
+    ("fewer-keys", [J(KG(0)), J(KG(0, "RSA"))]),
+    ("empty-jwks", [J(KG(0)), J([])]),
+    ("secret-only", [N(), N()]),
+    ("secret-then-keys", [N(), J(KG(1))]),
+    ("refused-between", [J(KG(0)), J(KG(1), refuse=True)]),
+    ("refused-then-none", [J(KG(0)), J(KG(1), refuse=True), N()]),
+    ("first-refused", [J(KG(0), refuse=True), J(KG(1))]),
+    ("three-jwks", [J(KG(0)), J(KG(1)), J(KG(2))]),
+    ("keys-none-keys", [J(KG(0)), N(), J(KG(2))]),
+    ("none-keys-none", [N(), J(KG(1)), N()]),
+    ("back-to-first", [J(KG(0)), J(KG(1)), J(KG(0))]),
+    ("mixed-generations", [J(KG(0)), J(KG(0, "RSA") + KG(1, "EC")), U(KG(1, "RSA"))]),
+]
+# what each registration of a history asks for as request_object_signing_alg (by position; shorter patterns repeat None)
+ALG_PATTERNS = [(), ("ES256",), (None, "RS256"), ("RS256", "HS256", None), ("HS256",), (None, None, "ES256")]
+
+
+def with_algs(hist, pat):
+    return [dict(sp, alg=(pat[i] if i < len(pat) else None)) for i, sp in enumerate(hist)]
+
+
+def history_objects(hist, state="ind"):
+    """(name, object): for every generation of key material (also one no registration of the history brought) an RS256 and an
+    ES256 object under its keys, for every registration of the history (also the refused ones, and one that never happened)
+    an HS256 object under the secret it was / would have been issued; unsigned"""
+    import srv_c16 as S
+    c = dyn_claims(state)
+    gens = sorted({g for sp in hist for g, _sl in sp.get("keys") or []} | {0})
+    O = []
+    for g in gens:
+        O.append(("RS256-keys%d" % g, genuine(S.gen_owner(g), "RS256", c)))
+        O.append(("ES256-keys%d" % g, genuine(S.gen_owner(g), "ES256", c)))
+    for i in range(min(len(hist) + 1, S.GENERATIONS)):
+        O.append(("HS256-secret%d" % i, genuine(S.gen_owner(i), "HS256", c)))
+    O.append(("unsigned", genuine("client_d", "none", c)))
+    return O
+
+
+def in_force_exists(h):
+    """some registration of the history is accepted (else client_d does not exist and cannot authenticate at the PAR endpoint)"""
+    return any(not sp.get("refuse") for sp in h)
+
+
+def gen_histories(R, quick):
+    import srv_c16 as S
+    n = 0
+    for hi, (hname, hist) in enumerate(REG_HISTORIES):
+        for upto in range(1, len(hist) + 1):
+            if upto == 1 and hi not in (0, 3, 8, 12):
+                continue            # the one-registration prefixes repeat each other
+            pats = [ALG_PATTERNS[(hi + upto) % len(ALG_PATTERNS)]] if quick else ALG_PATTERNS
+            for pat in pats:
+                h = with_algs(hist[:upto], pat)
+                for meth in ("all", "pub"):
+                    if meth == "pub" and (quick and (hi + upto) % 3):
+                        continue
+                    wkey = (True, meth, True, 3600, "rsa+p256")
+                    for name, obj in history_objects(hist):
+                        for transport in ("value", "uri", "par") if in_force_exists(h) else ("value", "uri"):
+                            n += 1
+                            docs, ops = ops_for(transport, 0, obj, DOVER, pusher="client_d")
+                            R.run_case("history", wkey, {}, docs, ops, history=h,
+                                       note="%s/%s after history %s[:%d] asking %r" % (transport, name, hname, upto, [sp.get("alg") for sp in h]))
+    # the algorithm of the registration in force, on one key set: what an earlier registration asked for is gone with it
+    for pat in (("ES256", None), (None, "RS256"), ("RS256", "HS256"), ("HS256", None), ("none", "RS256"), ("RS256", "none"), ("ES256", "ES384")):
+        h = with_algs([J(KG(0)), J(KG(0))], pat)
+        for alg in ("RS256", "ES256", "HS256", "none"):
+            own = S.gen_owner(1) if alg == "HS256" else "client_d"
+            for transport in ("value", "uri", "par"):
+                docs, ops = ops_for(transport, 0, genuine(own, alg, dyn_claims()), DOVER, pusher="client_d")
+                R.run_case("history-alg", (True, "all", True, 3600, "rsa+p256"), {"prov_algs": RPROVS[2] if "none" in pat else None}, docs, ops,
+                           history=h, note="%s/%s after registering %r then %r with the same keys" % (transport, alg, pat[0], pat[1]))
+    # the static clients next to a re-registered one
+    for alg in ("RS256", "HS256"):
+        for transport in ("value", "par"):
+            docs, ops = ops_for(transport, 1, genuine("client_1", alg, base_claims("client_1", 1)), {})
+            R.run_case("history-other", (True, "all", True, 3600, "rsa+p256"), {}, docs, ops, history=with_algs([J(KG(0)), N()], ("ES256",)),
+                       note="%s/client_1 %s after client_d registered twice" % (transport, alg))
+
+
+def gen_random_histories(R, rng, count):
+    import srv_c16 as S
+    for i in range(count):
+        hist = []
+        for k in range(rng.randint(1, 3)):
+            r = rng.random()
+            g = rng.randint(0, S.GENERATIONS - 1)
+            keys = rng.choice([KG(g), KG(g), KG(g, "RSA"), KG(g, "EC"), KG(g, "RSA") + KG((g + 1) % S.GENERATIONS, "EC"), []])
+            sp = N() if r < 0.3 else (J(keys) if r < 0.7 else U(keys))
+            if rng.random() < 0.15:
+                sp["refuse"] = True
+            sp["alg"] = rng.choice([None, None, None, "RS256", "ES256", "HS256", "ES256K"])
+            hist.append(sp)
+        meth = rng.choice(["all", "all", "rp_pub", "pub"])
+        docs, ops = {}, []
+        for k in range(rng.randint(1, 3)):
+            name, obj = rng.choice(history_objects(hist, state="ind%d" % k))
+            d, o = ops_for(rng.choice(["value", "uri", "par"] if in_force_exists(hist) else ["value", "uri"]), k, obj, DOVER, pusher="client_d")
+            docs.update(d)
+            ops += o
+        R.run_case("history-random", (True, meth, True, 3600, rng.choice(["rsa+p256", "rsa", "many"])), {}, docs, ops, history=hist,
+                   note="random history: %s" % "; ".join("%s%s %r asks %r" % ("REFUSED " if sp.get("refuse") else "", sp["via"], sp["keys"], sp["alg"]) for sp in hist))
+
+
 # ------------------------------------------------------------------ entry points
 IMPORTS = ["Lib.Base", "Lib.PyStr", "Lib.Crypto", "Model.Jar", "Model.JarCheck"]
 CASE_T = "ccase"
@@ -1345,6 +1615,21 @@ def flush(R, ctx, label):
         ctx.coq_check_cases(IMPORTS, "((nat * nat * nat) * rcase)", "(chk_reg_multi %s)" % args, cases, shard=shard, label=label + "r",
                             diag="(diag_reg_multi %s)" % args)
     R.rcases = {}
+    if R.hcases:
+        js, bs, ds, cases = [], [], [], []
+
+        def pos(l, x):
+            if x not in l:
+                l.append(x)
+            return l.index(x)
+        for (jar, base, dprov), cs in R.hcases.items():
+            ix = "(%s, %s, %s)" % (coq_nat(pos(js, jar)), coq_nat(pos(bs, base)), coq_nat(pos(ds, dprov)))
+            cases += [("(%s, %s)" % (ix, term), rec) for term, rec in cs]
+        args = "%s %s %s" % (coq_list(js, "(list (pystr * list (kty * nat)))"), coq_list(bs, "cbase"), coq_list(ds, "(list pystr)"))
+        shard = max(40, min(150, -(-len(cases) // E.NCPU)))
+        ctx.coq_check_cases(IMPORTS + ["Model.JarReg"], "((nat * nat * nat) * hcase)", "(chk_hist_multi %s)" % args, cases, shard=shard,
+                            label=label + "h", diag="(diag_hist_multi %s)" % args)
+    R.hcases = {}
 
 
 def run(ctx):
@@ -1368,6 +1653,9 @@ def run(ctx):
         flush(R, ctx, "register")
         gen_random_registered(R, ctx.rng, 150 if ctx.quick else 4000)
         flush(R, ctx, "registerrandom")
+        gen_histories(R, ctx.quick)
+        gen_random_histories(R, ctx.rng, 150 if ctx.quick else 4000)
+        flush(R, ctx, "history")
     finally:
         if R.clock is not None:
             R.clock.uninstall()
@@ -1390,6 +1678,15 @@ def run(ctx):
     for tr in ("value", "uri", "pushed"):
         if not ctx.distribution.get("genuine-accepted-registered:" + tr):
             ctx.broken.append("harness sanity: no genuine request object of a dynamically registered client was accepted (%s)" % tr)
+    hs = R.hist_stats
+    if hs["again"] == 0 or hs["refused"] == 0:
+        ctx.broken.append("harness sanity: no registration history was driven (%r): the history rows judge nothing" % hs)
+    for tr in ("value", "uri", "pushed"):
+        if not ctx.distribution.get("genuine-accepted-reregistered:" + tr):
+            ctx.broken.append("harness sanity: after a re-registration no object signed with the material in force was accepted (%s)" % tr)
+    ctx.notes.append("registration histories: %d accepted registrations (%d of them under an id already registered), %d refused; objects signed "
+                     "with the material in force accepted after a re-registration: %s" % (hs["stored"], hs["again"], hs["refused"], ", ".join(
+                         "%s %d" % (tr, ctx.distribution.get("genuine-accepted-reregistered:" + tr, 0)) for tr in ("value", "uri", "pushed"))))
     ctx.notes.append("registrations through the real endpoint: %d accepted (%d asking for an advertised algorithm, %d for nothing / a value "
                      "not advertised), %d refused; a value that is not advertised is dropped and the response says so (observation, see "
                      "assumptions)" % (st["stored"], st["exact"], st["dropped"], st["refused"]))
@@ -1434,7 +1731,7 @@ def replay(ctx, rp):
     try:
         R.run_case(case.get("kind", "replay"), wkey, case.get("conf") or {},
                    case.get("docs") or {}, ops, t0=case.get("t0", 1_700_000_000), note="replay of: %s" % case.get("note", ""),
-                   register=case.get("register"))
+                   register=case.get("register"), history=case.get("history"))
         flush(R, ctx, "replay")
     finally:
         if R.clock is not None:
